@@ -211,6 +211,21 @@ impl<H: Handler> SimDev<H> {
         }
     }
 
+    /// Switch the servicing policy. As the specification requires of a device that re-enables
+    /// notifications, the rings are re-checked afterwards.
+    pub fn set_policy(&mut self, w: &mut World, p: Serve) {
+        self.qs.policy = p;
+        for q in 0..self.nq {
+            if self.qs.ensure(w, q) {
+                self.qs.arm(w, q);
+                if w.dev.driver_ok() && self.qs.pending(w, q) > 0 {
+                    self.serve(w, q);
+                }
+            }
+        }
+        let _ = self.h.on_turn(w, &mut self.qs);
+    }
+
     /// Serve queue `q`: fetch and hand chains to the handler.
     pub fn serve(&mut self, w: &mut World, q: u16) -> bool {
         let chains = self.qs.fetch_all(w, q);
@@ -261,7 +276,14 @@ impl<H: Handler> SimDev<H> {
 
     pub fn spin(&mut self, w: &mut World, site: virtio_drivers::verif_hooks::SpinSite) -> HookAction {
         self.spins_total += 1;
+        if w.spins <= 1 {
+            // first spin of a new driver call
+            self.idle_spins = 0;
+        }
         let did = self.turn(w, true);
+        if std::env::var("VDV_DEBUG").is_ok() {
+            eprintln!("spin #{} at {:?}: did={} idle={}", w.spins, site, did, self.idle_spins);
+        }
         if did {
             self.idle_spins = 0;
             return HookAction::Continue;
@@ -286,7 +308,21 @@ impl<H: Handler> SimDev<H> {
                 }
             }
         }
-        HookAction::Unwind(Escape::Starved(format!("{}: device has nothing to give", crate::world::site_name(site))))
+        let mut dbg = String::new();
+        for q in 0..self.nq {
+            if let Some(s) = self.qs.v.get(q as usize).and_then(|s| s.as_ref()) {
+                dbg.push_str(&format!(
+                    " q{}[avail_idx={:?} next_avail={} used_idx={} notified={} notifies={}]",
+                    q,
+                    s.rq.avail_idx(&w.hal),
+                    s.rq.next_avail,
+                    s.rq.used_idx,
+                    s.notified,
+                    s.notifies
+                ));
+            }
+        }
+        HookAction::Unwind(Escape::Starved(format!("{}: device has nothing to give;{}", crate::world::site_name(site), dbg)))
     }
 }
 
@@ -307,6 +343,11 @@ impl<H: Handler + 'static> Shared<H> {
     }
     pub fn with<R>(&self, f: impl FnOnce(&mut SimDev<H>) -> R) -> R {
         f(&mut self.0.borrow_mut())
+    }
+    /// Give the device a turn as if the driver were spinning (lets Late devices count down).
+    pub fn turn_spin(&self) -> bool {
+        let d = self.0.clone();
+        crate::world::with(|w| d.borrow_mut().turn(w, true))
     }
     /// Give the device a turn between driver calls.
     pub fn turn(&self) -> bool {
